@@ -84,7 +84,7 @@ def main():
       "setup_cmd": "./setup.sh",
       "hooks": {
         "guard": "verif",
-        "enable": "none needed: no hook is committed to /repo; every check copies /repo's working tree to a scratch directory and applies the simulation passes (cmd/instrument: yield points, seeded map-range order, globals registry) to the copy before building",
+        "enable": "none needed: no hook is committed to /repo; every check copies /repo's working tree to a scratch directory and applies the simulation passes (cmd/instrument: yield points, seeded map-range order, globals registry, and for code a change may add: library-started goroutines, clock reads, process exits) to the copy before building",
         "baseline_off_cmd": "cd /repo && GOFLAGS=-mod=mod go test -vet=off -count=1 ./...",
         "source_commits": [],
         "add_only": True,
